@@ -23,10 +23,11 @@ RULE = ("cases: sequences of 1-3 public operations (products, solves through Cho
 ASSUMPTIONS = ["op schemas (alias_info.is_write) identify in-place ATen writes", "bitwise comparison of snapshots taken before the call"]
 REQUIRED_STATS = ("operations", "aten_ops_seen", "aten_writes_seen")
 
-OPS = ["getitem_tensor_neg", "matmul", "rmatmul", "t_matmul", "to_dense", "diagonal", "getitem", "getitem_tensor", "solve", "solve_cg", "solve_left", "inv_quad", "logdet",
+OPS = ["getitem_tensor_neg", "matmul", "matvec", "rmatmul", "t_matmul", "to_dense", "diagonal", "getitem", "getitem_tensor", "solve", "solve_cg", "solve_left", "inv_quad", "logdet",
        "inv_quad_logdet_slq", "cholesky", "root_decomposition", "root_lanczos", "root_inv", "root_inv_lanczos", "eigh", "svd", "diagonalization",
        "add_diagonal", "add_jitter", "add_low_rank", "cat_rows", "pivoted_cholesky", "preconditioner", "samples", "sqrt_inv_matmul", "sum_batch",
        "mul_scalar", "mul_op", "add_tensor", "add_op", "expand", "clone_detach", "double", "evaluate_kernel", "rebuild"]
+RECT_OPS = ["matmul", "matvec", "rmatmul", "t_matmul", "to_dense", "getitem", "mul_scalar", "add_tensor", "add_op", "expand", "clone_detach", "double", "rebuild", "sum_batch"]
 UTILS = ["linear_cg", "linear_cg_guess", "minres", "lanczos", "psd_safe_cholesky", "psd_safe_cholesky_jitter", "stable_qr", "stable_pinverse",
          "toeplitz_matmul", "sym_toeplitz_derivative", "left_interp", "left_t_interp", "make_sparse", "make_sparse_allzero", "sparse_getitem",
          "sparse_getitem_empty", "sparse_repeat", "bdsmm", "apply_permutation", "inverse_permutation"]
@@ -45,6 +46,16 @@ def gen_cases(ctx):
         root = classes[i % len(classes)]
         n = rng.choice([2, 3, 4, 6])
         batch = rng.choice([[], [], [2], [2, 2]])
+        if rng.random() < 0.2:
+            # rectangular / general square operators (concatenations, products, interpolations, non-symmetric structure) under the
+            # operations that do not need positive definiteness
+            m = rng.choice([n, n + 1, n + 2, max(1, n - 1), 2 * n])
+            spec = zoo.gen_spec(rng, "rect" if m != n else "square", n, m, batch, depth=rng.choice([1, 2]), dtype=rng.choice(["f64", "f64", "f32"]), root=root)
+            if spec is None:
+                continue
+            yield dict(mode="op", spec=spec, ops=[rng.choice(RECT_OPS) for _ in range(rng.choice([1, 2, 3]))], layout=rng.choice([None, "transposed", "slice", "expanded"]),
+                       shared=False, seed=rng.randrange(1 << 30), mcs=None)
+            continue
         spec = zoo.gen_spec(rng, "pd", n, n, batch, depth=rng.choice([1, 2]), dtype=rng.choice(["f64", "f64", "f32"]), root=root)
         if spec is None:
             continue
@@ -79,6 +90,7 @@ def _apply(opname, op, dense, g, layout, rng):
     dt = dense.dtype
     batch = list(dense.shape[:-2])
     n = dense.shape[-1]
+    nr = dense.shape[-2]  # (rectangular operators: products, sums, indexing, conversions only)
 
     def randn(*shape):
         return _hostile(torch.randn(tuple(shape), generator=g, dtype=torch.float64).to(dt), layout)
@@ -98,16 +110,20 @@ def _apply(opname, op, dense, g, layout, rng):
     if opname == "matmul":
         return (lambda: op @ R), ex
     if opname == "rmatmul":
-        Lh = randn(*batch, 2, n)
+        Lh = randn(*batch, 2, nr)
         return (lambda: Lh @ op), {"lhs": Lh}
     if opname == "t_matmul":
-        return (lambda: op.mT @ R), ex
+        Rt = R if nr == n else randn(*batch, nr, 2)
+        return (lambda: op.mT @ Rt), {"rhs": Rt}
+    if opname == "matvec":
+        v = randn(n)
+        return (lambda: op @ v), {"rhs": v}
     if opname == "to_dense":
         return (lambda: op.to_dense()), {}
     if opname == "diagonal":
         return (lambda: op.diagonal()), {}
     if opname == "getitem":
-        return (lambda: (op[..., 0, :], op[..., 1:, :1].to_dense() if n > 1 else None)), {}
+        return (lambda: (op[..., 0, :], op[..., 1:, :1].to_dense() if nr > 1 else None)), {}
     if opname == "getitem_tensor":
         idx = _hostile(torch.tensor([0, n - 1, 0]), layout if layout != "expanded" else None)
         return (lambda: (op[..., idx, idx], op[..., idx, :].to_dense())), {"index": idx}
@@ -176,13 +192,13 @@ def _apply(opname, op, dense, g, layout, rng):
     if opname == "mul_op":
         return (lambda: (op * DenseLinearOperator(dense.clone())).to_dense()), {}
     if opname == "add_tensor":
-        T = randn(*batch, n, n)
+        T = randn(*batch, nr, n)
         return (lambda: (op + T).to_dense()), {"tensor": T}
     if opname == "add_op":
-        T = randn(*batch, n, n)
+        T = randn(*batch, nr, n)
         return (lambda: (op + DenseLinearOperator(T)).to_dense()), {"tensor": T}
     if opname == "expand":
-        return (lambda: op.expand(2, *batch, n, n).to_dense()), {}
+        return (lambda: op.expand(2, *batch, nr, n).to_dense()), {}
     if opname == "clone_detach":
         return (lambda: (op.clone(), op.detach())), {}
     if opname == "double":
